@@ -235,3 +235,27 @@ Proof.
   eapply index_irrelevant_key; try eassumption.
   apply root_is_extent; assumption.
 Qed.
+
+(* the statement of C04 in one piece: for a container whose rows are aligned with
+   a modelled geometry array with an extent, and a key denoting a box of positive
+   width and height, .cx returns the intersecting rows in their original order,
+   with any index configuration and without index *)
+Theorem cx_headline : forall A g (rows : list A) keys ps xs ys ex0 ey0 ex1 ey1,
+  g_modelled g -> g_even_outer g ->
+  length rows = g_len g ->
+  Permutation keys (seq 0 (g_len g)) ->
+  key_has_step xs = false -> key_has_step ys = false ->
+  g_total_bounds g = (Some ex0, Some ey0, Some ex1, Some ey1) ->
+  positive_box (spec_box xs ys (ex0, ey0, ex1, ey1)) ->
+  cx_rows (new_obj g) rows xs ys = Some (rows_spec g (spec_box xs ys (ex0, ey0, ex1, ey1)) rows) /\
+  cx_rows (build_sindex (new_obj g) keys ps) rows xs ys
+  = Some (rows_spec g (spec_box xs ys (ex0, ey0, ex1, ey1)) rows).
+Proof.
+  intros A g rows keys ps xs ys ex0 ey0 ex1 ey1 M E L P Sx Sy ET Pos.
+  pose proof (selects_exact_noindex_key g xs ys ex0 ey0 ex1 ey1 M Sx Sy ET) as H0.
+  split.
+  - apply rows_travel; assumption.
+  - apply rows_travel; [assumption|].
+    rewrite (index_irrelevant_open_ends g keys ps xs ys ex0 ey0 ex1 ey1) by assumption.
+    exact H0.
+Qed.
